@@ -501,6 +501,30 @@ bs_done:
 		for (i = 0; i < 64; i++) KSI_BlockSignerHandle_free(h[i]);
 		KSI_BlockSigner_free(bs); KSI_DataHash_free(prev); KSI_OctetString_free(iv);
 		return rc; }
+	if (is("bsblock")) { /* bsblock <c> <nleaves> <seed> [free=1]: ONE block signer kept across commands; a block of plain leaves is added, closed and signed, every
+	                      * leaf handle is asked for its signature (whatever closeAndSign said), then the signer is reset for the next block */
+		static KSI_BlockSigner *kept; KSI_CTX *c = kx_ctx(atoi(tok[1])); int n = atoi(tok[2]); unsigned seed = (unsigned)atoi(tok[3]); int i, rc, crc, handed = 0, good = 0, refused = 0, firstref = 0;
+		KSI_BlockSignerHandle *h[16]; memset(h, 0, sizeof h); if (n > 16) n = 16;
+		if (kx_kvl("free", 0)) { KSI_BlockSigner_free(kept); kept = NULL; return 0; }
+		if (!kept) { rc = KSI_BlockSigner_new(c, KSI_HASHALG_SHA2_256, NULL, NULL, &kept); if (rc) { kx_out(" stage=new"); return rc; } }
+		for (i = 0; i < n; i++) { KSI_DataHash *dh = NULL; unsigned char data[8]; memcpy(data, &seed, 4); memcpy(data + 4, &i, 4);
+			rc = KSI_DataHash_create(c, data, 8, KSI_HASHALG_SHA2_256, &dh); if (rc) { kx_out(" stage=hash"); goto bb_done; }
+			rc = KSI_BlockSigner_addLeaf(kept, dh, 0, NULL, &h[i]); KSI_DataHash_free(dh); if (rc) { kx_out(" stage=add"); goto bb_done; } }
+		crc = KSI_BlockSigner_closeAndSign(kept);
+		for (i = 0; i < n; i++) { KSI_Signature *sg = NULL; KSI_DataHash *dh = NULL; unsigned char data[8]; int r2;
+			r2 = KSI_BlockSignerHandle_getSignature(h[i], &sg);
+			if (r2 != KSI_OK || !sg) { refused++; if (!firstref) firstref = r2; KSI_Signature_free(sg); continue; }
+			handed++;
+			if (handed == 1) out_sig("sig", sg);
+			memcpy(data, &seed, 4); memcpy(data + 4, &i, 4);
+			if (KSI_DataHash_create(c, data, 8, KSI_HASHALG_SHA2_256, &dh) == KSI_OK && KSI_Signature_verifyWithPolicy(sg, dh, 0, KSI_VERIFICATION_POLICY_INTERNAL, NULL) == KSI_OK) good++;
+			KSI_DataHash_free(dh); KSI_Signature_free(sg); }
+		kx_out(" close=%d handed=%d good=%d refused=%d refusedrc=%d", crc, handed, good, refused, firstref);
+		rc = crc;
+bb_done:
+		for (i = 0; i < 16; i++) KSI_BlockSignerHandle_free(h[i]);
+		{ int r3 = KSI_BlockSigner_reset(kept); if (r3) kx_out(" resetrc=%d", r3); }
+		return rc; }
 	if (is("getconf")) { /* getconf <c> aggr|ext */
 		KSI_CTX *c = kx_ctx(atoi(tok[1])); KSI_Config *cfg = NULL; int rc = !strcmp(tok[2], "aggr") ? KSI_receiveAggregatorConfig(c, &cfg) : KSI_receiveExtenderConfig(c, &cfg);
 		if (rc == KSI_OK && cfg) { char b[512]; fmt_config(cfg, b, sizeof b); kx_out(" config=%s", b); } else out_ksi_err(c);
